@@ -48,6 +48,14 @@ def plan(tier, seed):
         items.append({"kind": "spec", "spec": sp, "bseed": 400 + i, "origin": "combinator"})
     for i, c in enumerate(flowgen.flow_cases(dims=(2,))):
         items.append({"kind": "flow", "case": c, "bseed": 700 + i, "origin": "flow"})
+    # structures in which a float32 carry / slice meets a numerically inverted block (precision-sensitive after serialisation)
+    for i, sp in enumerate([
+            {"op": "Scan", "n": 3, "child": {"op": "Concatenate", "axis": -1, "args": [
+                {"op": "MAF", "dim": 4, "cond_dim": 5, "transformer": {"op": "Affine", "shape": ()}, "nn_width": 4, "nn_depth": 0},
+                {"op": "BNAF", "dim": 1, "cond_dim": None, "depth": 1, "block_dim": 3}]}},
+            {"op": "Scan", "n": 2, "child": {"op": "Concatenate", "axis": 0, "args": [
+                {"op": "Affine", "shape": (2,)}, {"op": "BNAF", "dim": 2, "cond_dim": None, "depth": 0, "block_dim": 2}]}}]):
+        items.append({"kind": "spec", "spec": sp, "bseed": 900 + i, "origin": "combinator"})
     rng = np.random.default_rng([seed, 14])
     gen = S.Gen(rng)
     for i in range(24 if tier != "thorough" else 600):
